@@ -133,7 +133,9 @@ var portPool = []string{"any", "fragment", "0", "1", "80", "080", "443", "65535"
 	"a-b", "1-b", "a-2", "80 ", " 80", "8 0", "0x50", "1_000", "1e3", "٨٠", "８０", "", " ", "  ", "1--2", "1-2-3", "any ", "ANY", "Any",
 	"Fragment", "fragment ", "any-any", "1-any", "00000000000000000080", "00-5", "65535-65535", "65536-65537", "80.0", "1,2", "200-901",
 	"70000x", "7000x", "x70000", "1-70000x", "999999999999999999999999x",
-	"1\t-\t2", "1-2\n", "\t80", "80\n", "1 -\t2", "\u00a01-2", "1-2\u00a0", "1\r-2"}
+	"1\t-\t2", "1-2\n", "\t80", "80\n", "1 -\t2", "\u00a01-2", "1-2\u00a0", "1\r-2",
+	// a zero on one side only (0 is PortAny inside the code: `N-0` must stay a malformed descending range)
+	"443-0", "1-0", "65535-0", "80 - 0", "0-443", "0-1", "00-0", "0-00", "443-00", "65536-0", "0-65536"}
 
 func genPort(r *hlib.Rand) string {
 	switch r.Intn(10) {
@@ -149,6 +151,9 @@ func genPort(r *hlib.Rand) string {
 		return fmt.Sprintf("%s%d%s-%s%d%s", sp, a, hlib.Pick(r, "", " "), hlib.Pick(r, "", " "), b, sp)
 	case 7:
 		a := r.Intn(3)
+		if r.Intn(3) == 0 {
+			return fmt.Sprintf("%d-%d", r.Intn(66000), a) // descending towards 0/1/2
+		}
 		return fmt.Sprintf("%d-%d", a, r.Intn(100))
 	case 8: // one character of a valid text damaged
 		s := []byte(hlib.Pick(r, "8080", "100-200", "any", "fragment", "65535"))
